@@ -5,4 +5,5 @@ S=$(mktemp -d /var/tmp/dvtry-XXXXXX); cp -r /repo/src $S/src
 patch -p1 -s -d $S -i $PATCH || { echo "patch failed"; rm -rf $S; exit 3; }
 VERIF_EVIDENCE_DIR=$S/evidence DENDROPY_REPO=$S /verif/check $PROP "$@" | grep -v "^KNOWN" | tail -6
 rm -rf $S
-(cd /verif/harness && /venv/bin/python extract.py > /dev/null)
+(cd /verif/harness && ${PY:-/venv/bin/python} -c "import leanio
+with leanio.lock(): leanio.regenerate()" >/dev/null)
